@@ -99,4 +99,66 @@ theorem render_idempotent_stream (toks : List Tok) (comments : Array Bytes) (out
   simp only
   exact gen_render ps hgen (fun p hp => ⟨(hok p hp).1, (hok p hp).2.1, (hok p hp).2.2, hnumP p hp⟩)
 
+/-! ### the hypotheses are closed under formatting -/
+
+theorem numHead_sameClass {a b : Tok} (h : SameClass a b) : numHead b = numHead a := by
+  unfold numHead
+  have h2 := h.2
+  cases ha : a.text with
+  | nil =>
+    cases hb : b.text with
+    | nil => rfl
+    | cons d δ => rw [ha, hb] at h2; simp at h2
+  | cons c σ =>
+    cases hb : b.text with
+    | nil => rw [ha, hb] at h2; simp at h2
+    | cons d δ =>
+      rw [ha, hb] at h2
+      simp only [List.head?_cons, Option.some.injEq] at h2
+      subst h2
+      rfl
+
+theorem numColonFree_rel {A A' : List Tok} (h : Forall2 OutRel A A') (hn : numColonFree A = true) :
+    numColonFree A' = true := by
+  induction h with
+  | nil => rfl
+  | @cons a a' as as' hr hrest ih =>
+    cases hrest with
+    | nil => rfl
+    | @cons b b' bs bs' hr2 hrest2 =>
+      unfold numColonFree at hn ⊢
+      rw [Bool.and_eq_true] at hn ⊢
+      refine ⟨?_, ih hn.2⟩
+      rw [numHead_sameClass hr.1, hr2.1.1]
+      exact hn.1
+
+theorem pieces_outRel : ∀ (ps : List Piece), (∀ p ∈ ps, p.ok ∧ p.ok3) → ∀ l,
+    Forall2 OutRel (ps.flatMap Piece.src) (piecesOut l ps) := by
+  intro ps
+  induction ps with
+  | nil => intro _ _; exact Forall2.nil
+  | cons p ps ih =>
+    intro hok l
+    simp only [List.flatMap_cons, piecesOut]
+    exact Forall2.append (piece_outRel p (hok p (by simp)).1 (hok p (by simp)).2 l)
+      (ih (fun q hq => hok q (by simp [hq])) (l + 1))
+
+/-- what `Tokenize` reads back from `Render`'s output has no number directly before a ":" either -/
+theorem render_output_numColonFree (toks : List Tok) (comments : Array Bytes) (out : Bytes)
+    (hwf : ∀ t ∈ toks, wfTok t = true) (hcm : wfComments comments)
+    (hlines : linesOK (toks.length + 1) toks = true) (hsorted : SortedLines toks)
+    (hnum : numColonFree toks = true)
+    (hr : render toks comments = some out) (hnl : out.count 10 < maxLine) :
+    ∃ toks' comments', tokenize out = some (toks', comments') ∧ numColonFree toks' = true := by
+  obtain ⟨ps, hout, hok, hsrc, _⟩ := render_gen toks comments out hwf hcm hlines hsorted hr
+  have hlen : ps.length < maxLine := by
+    have := pieces_length_le_newlines ps
+    rw [← hout] at this
+    omega
+  have htok := pieces_tokenize ps (fun p hp => (hok p hp).1) hlen
+  refine ⟨_, _, by rw [hout]; exact htok, ?_⟩
+  have hrel := pieces_outRel ps (fun p hp => ⟨(hok p hp).1, (hok p hp).2.2⟩) 1
+  rw [hsrc] at hrel
+  exact numColonFree_rel hrel hnum
+
 end WuffsVerif.Render
